@@ -182,6 +182,8 @@ func concurrentHistory(s sink.Sink, rng *rand.Rand, sample bool) {
 		return initial[c] + n
 	}
 	nEvents := 3 + rng.Intn(6)
+	withSubStopped := false
+	var raceFrom, raceTo int64
 	var events []cEvent
 	inconclusive := ""
 	deliver := func(c int, v int64) (h, d int64, msg string) {
@@ -267,6 +269,54 @@ func concurrentHistory(s sink.Sink, rng *rand.Rand, sample bool) {
 		s.Inconclusive(inconclusive)
 		return
 	}
+	// A de-registration racing with a registered event of the same sub-channel: whichever comes
+	// first, both must come to an end, and the family must stay responsive. (Bounded progress with a
+	// margin of 20 s on an otherwise idle watcher, like the other stall verdicts.)
+	stopRace := ""
+	if withSub && rng.Intn(3) == 0 {
+		w.rs.mu.Lock()
+		sub1 := w.rs.subs[w.ids[1]]
+		w.rs.mu.Unlock()
+		ev1 := channel.NewRegisteredEvent(w.ids[1], &channel.ElapsedTimeout{}, 0, nil, nil)
+		raceFrom = tick()
+		stopped := make(chan error, 1)
+		handed := make(chan bool, 1)
+		go func() {
+			for y := rng.Intn(3); y > 0; y-- {
+				runtime.Gosched()
+			}
+			select {
+			case sub1.events <- ev1:
+				handed <- true
+			case <-sub1.closed:
+				handed <- false
+			case <-time.After(25 * time.Second):
+				handed <- false
+			}
+		}()
+		go func() { stopped <- w.w.StopWatching(ctx, w.ids[1]) }()
+		select {
+		case <-stopped:
+		case <-time.After(20 * time.Second):
+			stopRace = "StopWatching of a sub-channel did not return within 20 s while a registered event of that sub-channel was being handled"
+		}
+		select {
+		case <-handed:
+		case <-time.After(26 * time.Second):
+		}
+		if stopRace == "" {
+			// the parent must still react: a registered event with a newer version is handled (no refutation)
+			_, d, m := deliver(0, initial[0]+int64(K)+5)
+			if m != "" || d == 0 {
+				stopRace = "after a de-registration raced with an event, the parent no longer handles events: " + m
+			} else {
+				events = append(events, cEvent{Ch: 0, V: initial[0] + int64(K) + 5, H: d - 1, D: d})
+			}
+		}
+		raceTo = tick()
+		s.Count("concurrent_stop_races", 1)
+		withSubStopped = true
+	}
 	if p := pubPanic.Load(); p != nil {
 		s.Violation("C05/concurrent/panic/publish", "Publish panicked while the channel was watched: "+p.(string), cWitness{Setup: setupStr, Problem: p.(string)})
 		return
@@ -330,6 +380,11 @@ func concurrentHistory(s sink.Sink, rng *rand.Rand, sample bool) {
 			}
 		}
 		return best
+	}
+	if stopRace != "" {
+		s.Violation("C05/concurrent/stop-blocked", stopRace, cWitness{Setup: setupStr, Initial: initial, Events: events, Problem: stopRace})
+		s.Case(fmt.Sprintf("concurrent stop race sub=%v init=%v K=%d", withSub, initial, K), true)
+		return
 	}
 	var problems []string
 	class := ""
@@ -420,13 +475,26 @@ func concurrentHistory(s sink.Sink, rng *rand.Rand, sample bool) {
 			}
 		}
 	}
+	inRace := 0
 	for j, c := range calls {
-		if !used[j] && c.Stamp > events[0].H {
-			fail("register-without-event", "Register(v%d) outside the handling of any event", c.PV)
+		if used[j] || c.Stamp <= events[0].H {
+			continue
 		}
+		if withSubStopped && c.Stamp > raceFrom && c.Stamp < raceTo {
+			inRace++ // the event that raced with the de-registration may or may not have been handled
+			continue
+		}
+		fail("register-without-event", "Register(v%d) outside the handling of any event", c.PV)
+	}
+	if inRace > 1 {
+		fail("refuted-more-than-once", "%d Register calls for the one event that raced with the de-registration", inRace)
 	}
 	for _, c := range chans {
-		if fmt.Sprint(expRelay[c]) != fmt.Sprint(relayed[c]) {
+		exp := fmt.Sprint(expRelay[c])
+		if c == 1 && withSubStopped && relayedVer[1] < 0 && fmt.Sprint(relayed[c]) == "[0]" {
+			continue // the racing event (version 0) was handled before the de-registration took effect
+		}
+		if exp != fmt.Sprint(relayed[c]) {
 			fail("relay", "%s: registered events relayed to the client %v, expected %v", chName(c), relayed[c], expRelay[c])
 		}
 	}
